@@ -37,7 +37,9 @@ pub fn default_float_table(arithmetic: bool) -> Table {
     transplant(FloatOpsFactory::<f64>::make(), vec![], arithmetic)
 }
 pub fn val_table() -> Table {
-    transplant(ValOpsFactory::<i32, f64>::make(), vec!["==", "!=", "cross", "dot", "&&", "||"], false)
+    // every flagged operator is interpreted as AC: that is what C01/C16 state (regrouping of a flagged operator
+    // is permitted whenever it would be invisible if the operator really were associative and commutative)
+    transplant(ValOpsFactory::<i32, f64>::make(), vec![], false)
 }
 
 fn idx(t: &Table, r: &str) -> u16 {
@@ -354,25 +356,28 @@ pub fn part_call_in_infix(args: &Args, pls: &[&'static str]) -> Part {
                 4 => Tree::paren(Tree::call(max, l, v)),
                 5 => Tree::un(sin, v),
                 6 => Tree::un(sin, Tree::call(min, v.clone(), v)),
-                _ => Tree::un(minus, Tree::paren(v)),
+                7 => Tree::un(minus, Tree::paren(v)),
+                // symbolic operators in call form: every binary operator may be written in call form
+                8 => Tree::call(pct, v, l),
+                _ => Tree::call(if i % 2 == 0 { minus } else { star }, l, v),
             }
         };
         let infix = [pct, minus, star];
         let mut es: Vec<Tree> = vec![];
-        for k in 0..8 {
+        for k in 0..10 {
             es.push(form(k, 0));
         }
-        for k1 in 0..8 {
-            for k2 in 0..8 {
+        for k1 in 0..10 {
+            for k2 in 0..10 {
                 for o in infix {
                     es.push(families::chain_to_tree(&[form(k1, 0), form(k2, 1)], &[o]));
                 }
             }
         }
         let mut ctr = seed.wrapping_add(ti as u64 * 31);
-        for k1 in 0..8 {
-            for k2 in 0..8 {
-                for k3 in 0..8 {
+        for k1 in 0..10 {
+            for k2 in 0..10 {
+                for k3 in 0..10 {
                     for (o1, o2) in [(pct, minus), (minus, pct), (star, minus), (minus, minus), (minus, star), (pct, pct)] {
                         ctr += 1;
                         if quick && ctr % 3 != 0 {
@@ -383,7 +388,7 @@ pub fn part_call_in_infix(args: &Args, pls: &[&'static str]) -> Part {
                 }
             }
         }
-        let mut firsts: Vec<Tree> = (0..8).map(|k| form(k, 2)).collect();
+        let mut firsts: Vec<Tree> = (0..10).map(|k| form(k, 2)).collect();
         firsts.push(families::chain_to_tree(&[form(3, 1), form(2, 2)], &[minus]));
         firsts.push(families::chain_to_tree(&[form(0, 1), form(4, 2)], &[star]));
         let mut out = vec![];
@@ -427,7 +432,7 @@ pub fn part_call_in_infix(args: &Args, pls: &[&'static str]) -> Part {
     let out = sweep::sweep(&sc);
     let bounds = json!({
         "tables": ntab,
-        "programs": "f(A, E): E = infix chain of 1..3 operands over % - * , each operand one of {variable, literal, (variable), g(v, l), (g(l, v)), sin v, sin g(v, v), -(v)}; A = one such operand or a 2-operand chain; f, g in {min, max, atan2}; embedded plain, as left/right operand, under sin, as first/second argument of another call (quick: every 3rd)",
+        "programs": "f(A, E): E = infix chain of 1..3 operands over % - * , each operand one of {variable, literal, (variable), g(v, l), (g(l, v)), sin v, sin g(v, v), -(v), %(v, l), -(l, v) or *(l, v)}; A = one such operand or a 2-operand chain; f, g in {min, max, atan2}; embedded plain, as left/right operand, under sin, as first/second argument of another call (quick: every 3rd)",
         "pipelines": pls,
     });
     Part { name: "call-in-infix", out, bounds }
@@ -762,8 +767,53 @@ pub fn must_be_rejected(seq: &[usize]) -> Option<&'static str> {
         return Some("ends in an operator");
     }
     let operands = toks.iter().filter(|t| ["1", "x", "y"].contains(t)).count();
+    // call form: a comma belongs to the operator directly in front of the parenthesis group that contains it
+    // (every binary operator may be written in call form, also `-(a, b)` and `%(a, b)`)
+    let mut owner_of_comma: Vec<Option<usize>> = vec![];
+    for (i, t) in toks.iter().enumerate() {
+        if *t == "," {
+            // walk left to the opening parenthesis of the enclosing group
+            let mut d = 0i32;
+            let mut j = i;
+            let mut open = None;
+            while j > 0 {
+                j -= 1;
+                if toks[j] == ")" {
+                    d += 1
+                } else if toks[j] == "(" {
+                    if d == 0 {
+                        open = Some(j);
+                        break;
+                    }
+                    d -= 1;
+                }
+            }
+            match open {
+                Some(o) if o > 0 && ["%", "-", "min", "sin"].contains(&toks[o - 1]) => owner_of_comma.push(Some(o - 1)),
+                _ => return Some("comma without an operator in call position"),
+            }
+        }
+    }
+    let owners: Vec<usize> = owner_of_comma.iter().map(|o| o.unwrap()).collect();
+    for o in &owners {
+        if owners.iter().filter(|p| *p == o).count() > 1 {
+            return Some("more than two arguments in call form");
+        }
+        if toks[*o] == "sin" {
+            // a unary-only operator with two arguments: not covered by the statement, no requirement
+            return None;
+        }
+        // an operator in call position stands where an operand is expected
+        if *o > 0 && ["1", "x", "y", ")"].contains(&toks[*o - 1]) {
+            return None;
+        }
+    }
     let mut binops = 0;
     for (i, t) in toks.iter().enumerate() {
+        if owners.contains(&i) {
+            binops += 1;
+            continue;
+        }
         match *t {
             "%" | "min" => binops += 1,
             "-" => {
@@ -1101,6 +1151,204 @@ pub fn c06(args: &Args) -> i32 {
         "functions": ["parser::tokenize_and_analyze", "parser::check_parsed_token_preconditions", "flat::detail::make_expression", "FlatEx::compile", "flat::detail::flatex_to_deepex", "deep::detail::make_expression", "deep::detail::process_unary", "DeepEx::compile", "partial::partial_deepex", "operator listings"],
         "assumptions": ["panic-freedom of a path is independent of T except through the operator functions, which are engine K's subject (C17)"],
         "outside": ["arbitrary Unicode beyond the listed edge texts", "texts longer than the bound", "the 1000-token / depth-100 stack claim (a resource measurement, not a solver question)", "hangs"],
+    }))
+}
+
+// ---------------------------------------------------------------------------------------------
+// C13 lexical families (through the real tokenizer at T = Sym)
+// ---------------------------------------------------------------------------------------------
+
+pub fn c13(args: &Args) -> i32 {
+    let tab = Table {
+        ops: vec![
+            OpSpec::un("log"),
+            OpSpec::un("log2"),
+            OpSpec::un("log10"),
+            OpSpec::un("sin"),
+            OpSpec::un("sinh"),
+            OpSpec::bin("<", 1, false),
+            OpSpec::bin("<=", 1, false),
+            OpSpec::dual("-", 3, false),
+            OpSpec::dual("+", 3, true),
+            OpSpec::bin("*", 4, true),
+            OpSpec::konst("PI"),
+            OpSpec::konst("E"),
+            OpSpec::konst("e"),
+            OpSpec::konst("π"),
+            OpSpec::un("exp"),
+            OpSpec::bin("<<", 2, false),
+        ],
+        arithmetic: false,
+        not_really_ac: vec![],
+    };
+    // a second table whose operator order in the table is reversed (longest match must not depend on table order)
+    let mut tab_rev = tab.clone();
+    tab_rev.ops.reverse();
+    let tables = vec![tab.clone(), tab_rev];
+    let gen = move |ti: usize, t: &Table| -> Vec<Program> {
+        let ix = |r: &str| t.ops.iter().position(|o| o.repr == r).unwrap() as u16;
+        let _ = ti;
+        let mut out: Vec<Program> = vec![];
+        let mut add = |text: String, tree: Tree, class: &'static str| out.push(Program { tree: Some(tree), text, class });
+        let unary = ["log", "log2", "log10", "sin", "sinh", "exp"];
+        let konst = ["PI", "E", "e", "π"];
+        let conts = ["4", "x", "_", "α", "Ω9", "_1", "E", "PI", "e", "0x"];
+        for u in unary {
+            for c in conts {
+                let name = format!("{u}{c}");
+                // continuing an operator name gives a variable unless the continuation completes another operator name
+                if unary.contains(&name.as_str()) || konst.contains(&name.as_str()) {
+                    continue;
+                }
+                // `log2` + `4` = `log24`: a variable; `log` + `2...` handled by the longest-match family below
+                if t.ops.iter().any(|o| o.unary && !o.konst && o.bin.is_none() && name.starts_with(o.repr) && o.repr.len() > u.len()) {
+                    continue;
+                }
+                add(name.clone(), Tree::var(&name), "extended-operator-name");
+                add(format!("{name}*2"), Tree::bin(ix("*"), Tree::var(&name), Tree::lit("2")), "extended-operator-name");
+                add(format!("-{name}"), Tree::un(ix("-"), Tree::var(&name)), "extended-operator-name");
+                add(format!("{u} {name}"), Tree::un(ix(u), Tree::var(&name)), "extended-operator-name");
+            }
+            // exact name applies the operator
+            add(format!("{u} 4"), Tree::un(ix(u), Tree::lit("4")), "exact-operator-name");
+            add(format!("{u}(4)"), Tree::un(ix(u), Tree::lit("4")), "exact-operator-name");
+            add(format!("{u}(x)"), Tree::un(ix(u), Tree::var("x")), "exact-operator-name");
+            add(format!("{u} x"), Tree::un(ix(u), Tree::var("x")), "exact-operator-name");
+            add(format!("{u}-x"), Tree::un(ix(u), Tree::un(ix("-"), Tree::var("x"))), "exact-operator-name");
+            add(format!("{u} {u} x"), Tree::un(ix(u), Tree::un(ix(u), Tree::var("x"))), "exact-operator-name");
+            add(format!("{u} {{{u}}}"), Tree::un(ix(u), Tree::var(u)), "exact-operator-name");
+            add(format!("2*{u} PI"), Tree::bin(ix("*"), Tree::lit("2"), Tree::un(ix(u), Tree::Konst(ix("PI")))), "exact-operator-name");
+            // truncated names are variables
+            if u.len() > 2 {
+                let tr = &u[..u.len() - 1];
+                if !unary.contains(&tr) && !konst.contains(&tr) {
+                    add(tr.to_string(), Tree::var(tr), "truncated-operator-name");
+                    add(format!("{tr}*{u} x"), Tree::bin(ix("*"), Tree::var(tr), Tree::un(ix(u), Tree::var("x"))), "truncated-operator-name");
+                }
+            }
+        }
+        for c in konst {
+            add(c.to_string(), Tree::Konst(ix(c)), "constant");
+            add(format!("{c}*2"), Tree::bin(ix("*"), Tree::Konst(ix(c)), Tree::lit("2")), "constant");
+            add(format!("2*{c}"), Tree::bin(ix("*"), Tree::lit("2"), Tree::Konst(ix(c))), "constant");
+            add(format!("-{c}"), Tree::un(ix("-"), Tree::Konst(ix(c))), "constant");
+            add(format!("({c})"), Tree::Konst(ix(c)), "constant");
+            for cont in ["5", "x", "_", "rwin", "2x"] {
+                let name = format!("{c}{cont}");
+                if unary.contains(&name.as_str()) || konst.contains(&name.as_str()) || name == "exp" || name.starts_with("exp") {
+                    continue;
+                }
+                add(name.clone(), Tree::var(&name), "extended-constant-name");
+                add(format!("{name}+1"), Tree::bin(ix("+"), Tree::var(&name), Tree::lit("1")), "extended-constant-name");
+            }
+        }
+        // longest match
+        add("log2 x".into(), Tree::un(ix("log2"), Tree::var("x")), "longest-match");
+        add("log2(x)".into(), Tree::un(ix("log2"), Tree::var("x")), "longest-match");
+        add("log10(x)".into(), Tree::un(ix("log10"), Tree::var("x")), "longest-match");
+        add("log10 2".into(), Tree::un(ix("log10"), Tree::lit("2")), "longest-match");
+        add("log 2".into(), Tree::un(ix("log"), Tree::lit("2")), "longest-match");
+        add("log 10".into(), Tree::un(ix("log"), Tree::lit("10")), "longest-match");
+        add("log(2)".into(), Tree::un(ix("log"), Tree::lit("2")), "longest-match");
+        add("log log2 log10 x".into(), Tree::un(ix("log"), Tree::un(ix("log2"), Tree::un(ix("log10"), Tree::var("x")))), "longest-match");
+        add("sinh x".into(), Tree::un(ix("sinh"), Tree::var("x")), "longest-match");
+        add("sin h".into(), Tree::un(ix("sin"), Tree::var("h")), "longest-match");
+        add("x<=y".into(), Tree::bin(ix("<="), Tree::var("x"), Tree::var("y")), "longest-match");
+        add("x<y".into(), Tree::bin(ix("<"), Tree::var("x"), Tree::var("y")), "longest-match");
+        add("x<<y".into(), Tree::bin(ix("<<"), Tree::var("x"), Tree::var("y")), "longest-match");
+        add("x<-y".into(), Tree::bin(ix("<"), Tree::var("x"), Tree::un(ix("-"), Tree::var("y"))), "longest-match");
+        add("x<=-y".into(), Tree::bin(ix("<="), Tree::var("x"), Tree::un(ix("-"), Tree::var("y"))), "longest-match");
+        add("x <= 2 < y".into(), Tree::bin(ix("<"), Tree::bin(ix("<="), Tree::var("x"), Tree::lit("2")), Tree::var("y")), "longest-match");
+        // sign rule
+        let x = || Tree::var("x");
+        let y = || Tree::var("y");
+        let neg = |t: Tree| Tree::un(ix("-"), t);
+        let pos = |t: Tree| Tree::un(ix("+"), t);
+        add("-x".into(), neg(x()), "sign");
+        add("--x".into(), neg(neg(x())), "sign");
+        add("+-+x".into(), pos(neg(pos(x()))), "sign");
+        add("x--y".into(), Tree::bin(ix("-"), x(), neg(y())), "sign");
+        add("x-+-y".into(), Tree::bin(ix("-"), x(), pos(neg(y()))), "sign");
+        add("x*-y".into(), Tree::bin(ix("*"), x(), neg(y())), "sign");
+        add("(-x)".into(), neg(x()), "sign");
+        add("-(x)".into(), neg(x()), "sign");
+        add("(x)-y".into(), Tree::bin(ix("-"), x(), y()), "sign");
+        add("(x)-(-y)".into(), Tree::bin(ix("-"), x(), neg(y())), "sign");
+        add("2-3".into(), Tree::bin(ix("-"), Tree::lit("2"), Tree::lit("3")), "sign");
+        add("2- -3".into(), Tree::bin(ix("-"), Tree::lit("2"), neg(Tree::lit("3"))), "sign");
+        add("-2-3".into(), Tree::bin(ix("-"), neg(Tree::lit("2")), Tree::lit("3")), "sign");
+        add("x<-y-z".into(), Tree::bin(ix("<"), x(), Tree::bin(ix("-"), neg(y()), Tree::var("z"))), "sign");
+        add("sin-x-y".into(), Tree::bin(ix("-"), Tree::un(ix("sin"), neg(x())), y()), "sign");
+        add("PI-x".into(), Tree::bin(ix("-"), Tree::Konst(ix("PI")), x()), "sign");
+        add("{x}-y".into(), Tree::bin(ix("-"), x(), y()), "sign");
+        // literal spellings
+        for lit in ["1", "1.", ".5", "1.5", "10.25", "007", "0", "0.0", "123456789", "3.", ".0"] {
+            add(lit.to_string(), Tree::lit(lit), "literal");
+            add(format!("{lit}*x"), Tree::bin(ix("*"), Tree::lit(lit), x()), "literal");
+            add(format!("x-{lit}"), Tree::bin(ix("-"), x(), Tree::lit(lit)), "literal");
+            add(format!("-{lit}"), neg(Tree::lit(lit)), "literal");
+            add(format!("sin {lit}"), Tree::un(ix("sin"), Tree::lit(lit)), "literal");
+        }
+        // braces: anything in curly braces is one variable
+        for name in ["x", "a b", "1", "1.5", "x+y", "sin", "log2", "PI", "-", "(", ")", "😀", "α β", "x,y", " ", "e", "{"] {
+            add(format!("{{{name}}}"), Tree::var(name), "braces");
+            add(format!("2*{{{name}}}"), Tree::bin(ix("*"), Tree::lit("2"), Tree::var(name)), "braces");
+            add(format!("sin{{{name}}}-1"), Tree::bin(ix("-"), Tree::un(ix("sin"), Tree::var(name)), Tree::lit("1")), "braces");
+        }
+        add("{x}*x".into(), Tree::bin(ix("*"), x(), x()), "braces");
+        // Greek and underscore identifiers
+        for name in ["α", "αβ2", "Ω_1", "_", "_x9", "xα", "ω", "Α", "a_b_c", "x1y2"] {
+            add(name.to_string(), Tree::var(name), "identifier");
+            add(format!("{name}*{name}"), Tree::bin(ix("*"), Tree::var(name), Tree::var(name)), "identifier");
+            add(format!("sin {name}"), Tree::un(ix("sin"), Tree::var(name)), "identifier");
+        }
+        out
+    };
+    let pls = ["flat", "flat_wo", "deep"];
+    let sc = mk_sweep(args, tables, &gen, pls.to_vec(), 16);
+    let out = sweep::sweep(&sc);
+    let p1 = Part {
+        name: "lexical-families",
+        out,
+        bounds: json!({
+            "tables": "one table with unary log/log2/log10/sin/sinh/exp, binary < <= << - + *, constants PI E e π; and the same table in reversed order",
+            "families": ["operator names extended by 4 x _ α Ω9 _1 E PI e 0x => variable", "exact names applied to literal / variable / sign / braces", "truncated names => variable", "constants and extended constant names", "longest match (log2/log10 over log, sinh over sin, <= and << over <)", "sign chains", "literal spellings", "anything in braces", "Greek / underscore identifiers"],
+            "check": "var_names and value term equal to the expected tree (solver-decided value equality; these are paths of the real tokenizer at T = Sym)",
+            "pipelines": pls,
+        }),
+    };
+    // texts that must be rejected
+    let t0 = Instant::now();
+    let mut rej = empty_out();
+    let _ = std::panic::take_hook();
+    std::panic::set_hook(Box::new(|_| {}));
+    table::set_table(&tab);
+    for text in [".", "..", "1.2.3", "1..2", "x.5", "1.x", "2 3", "x y", "x}", "{x}{y}", "sin", "log2", "x<", "<x", "x < = y", "1.5.", ".5.5"] {
+        rej.stats.programs += 1;
+        rej.stats.note_text(0, text);
+        for pl in ["flat", "deep"] {
+            sym::reset_arena();
+            match sweep::run_sym(pl, text) {
+                RunResult::Rejected(_) => rej.stats.rejected_raw += 1,
+                RunResult::Value(i, _, _) => {
+                    rej.stats.violations += 1;
+                    rej.findings.push(mk_finding("accepted-malformed", pl, &tab, text, None, sweep::show_term(i), String::new(), "lexically malformed text accepted".into()));
+                }
+                RunResult::Panic(m) => {
+                    rej.stats.violations += 1;
+                    rej.stats.panics += 1;
+                    rej.findings.push(mk_finding("panic", pl, &tab, text, None, String::new(), String::new(), m));
+                }
+            }
+        }
+    }
+    let _ = std::panic::take_hook();
+    rej.wall_s = t0.elapsed().as_secs_f64();
+    let p2 = Part { name: "lexical-rejections", out: rej, bounds: json!({"texts": "lone/multiple dots, literal beside identifier, unclosed braces, operator names without operand", "note": "path-level"}) };
+    finish(args, "C13", vec![p1, p2], vec![], json!({
+        "functions": ["parser::tokenize_and_analyze (operator sorting, exact-match look-ahead, brace tokenisation, RE_VAR_NAME)", "parser::is_numeric_text", "parser::is_operator_binary"],
+        "assumptions": ["a string has no symbolic value: this part is enumeration of lexical families through the real tokenizer (regex/lazy_static cannot be encoded by the installed engines); the kernels is_numeric_text and is_operator_binary are decided for all inputs by engine K"],
+        "outside": ["identifiers and operator tables outside the listed families", "alphabetic BINARY operator names followed by identifier characters (the look-ahead is documented as skipped for them)"],
     }))
 }
 
